@@ -475,3 +475,7 @@ package engine
 //@   ensures [C11] compound-selector-bases-are-searched-further: n.typ == dyn("*go/ast.SelectorExpr") && as("*go/ast.SelectorExpr", n.val).X.typ != dyn("*go/ast.Ident") ==> res
 //@   ensures [C11] found-means-named-and-unresolved: used && !old(used) ==> n.typ == dyn("*go/ast.SelectorExpr") && as("*go/ast.SelectorExpr", n.val).X.typ == dyn("*go/ast.Ident") && as("*go/ast.Ident", as("*go/ast.SelectorExpr", n.val).X.val).Name == name && as("*go/ast.Ident", as("*go/ast.SelectorExpr", n.val).X.val).Obj == nil
 //@   ensures [C11] never-unset: old(used) ==> used
+
+//@ func (c Changelog) ChangedIntervals() (ivals)
+//@   trusted computes plus minus minus with go-intervals (dependency; summarised)
+//@   assigns nothing
